@@ -57,17 +57,29 @@ template <class F> static void pooledRelease(const std::string &t, Pooled *p, F 
   g_tr->add(vf::Ev("Ret").str("t", t).str("op", "release"));
 }
 
+static void dropHandle(const std::string &t, std::unique_ptr<Obj> &u)
+{
+  if (!u) return;
+  g_tr->add(vf::Ev("Call").str("t", t).str("op", "drop").i("o", u->id));
+  u.reset();
+  g_tr->add(vf::Ev("Ret").str("t", t).str("op", "drop"));
+}
+
 static void runOp(Pool *pool, const std::string &t, Hands &H, const xc::Op &op)
 {
   int h = op.arg(0), h2 = op.arg(1);
   if (h < 0 || h > 4 || h2 < 0 || h2 > 4) return;
+  // a handle that is overwritten gives up what it holds first, as a logged operation of its own
+  if (op.op == "acq") dropHandle(t, H.u[h]);
+  if (op.op == "pdetach" && H.p[h]) dropHandle(t, H.u[h2]);
+  if (op.op == "pacq" && H.p[h]) pooledRelease(t, H.p[h].get(), [&] { H.p[h].reset(); });
   if (op.op == "acq")
   {
     g_tr->add(vf::Ev("Call").str("t", t).str("op", "acquire"));
     auto o = pool->acquire();
     g_tr->add(vf::Ev("Ret").str("t", t).str("op", "acquire").i("o", o ? o->id : 0).i("d", o && o->dirty ? 1 : 0));
     if (o) o->dirty = true; // the holder uses the object
-    H.u[h] = std::move(o);  // (a handle that still held an object destroys it: not generated)
+    H.u[h] = std::move(o);
   }
   else if (op.op == "rel")
     doRelease(pool, t, std::move(H.u[h]));
@@ -96,12 +108,7 @@ static void runOp(Pool *pool, const std::string &t, Hands &H, const xc::Op &op)
     g_tr->add(vf::Ev("Ret").str("t", t).str("op", "stats").i("av", (long long)s.available).i("cr", (long long)s.totalCreated).i("ac", (long long)s.totalAcquired).i("rl", (long long)s.totalReleased).i("ds", (long long)s.totalDestroyed));
   }
   else if (op.op == "drop")
-  {
-    if (!H.u[h]) return;
-    g_tr->add(vf::Ev("Call").str("t", t).str("op", "drop").i("o", H.u[h]->id));
-    H.u[h].reset();
-    g_tr->add(vf::Ev("Ret").str("t", t).str("op", "drop"));
-  }
+    dropHandle(t, H.u[h]);
   else if (op.op == "pacq")
   {
     g_tr->add(vf::Ev("Call").str("t", t).str("op", "acquire"));
